@@ -159,11 +159,31 @@ def oracle(case, rec):
     mean = np.mean(np.stack([np.asarray(a, float) for a in all1]), axis=0)
     if not np.allclose(Y1, mean, rtol=1e-12, atol=1e-12):
         raise PropertyViolation(key + "/mean", "reported mean differs from the mean of the returned runs by %.3g" % np.abs(Y1 - mean).max(), case)
-    rec.label("different-seed-asserted")
-    if _same(Y1, Y2):
-        raise PropertyViolation(key + "/different-seed", "seeds %d and %d gave identical mean trajectories" % (s1, s2), case)
+    # "different draws => different output" is only a consequence of the property where the solution really depends on a
+    # random parameter (a model started at an equilibrium, e.g. R=I with R->I and I->R at the same rate, does not):
+    # decided from the reference sensitivities of the abstract model at the centre of the sampling distributions.
+    sensitive = _depends_on_random_params(m, su, case["spec"], grid)
+    if sensitive:
+        rec.label("different-seed-asserted")
+        if _same(Y1, Y2):
+            raise PropertyViolation(key + "/different-seed", "seeds %d and %d gave identical mean trajectories" % (s1, s2), case)
+    else:
+        rec.label("different-seed-skipped:solution-insensitive-to-random-parameters")
     if n >= 2:
         d = np.abs(np.asarray(all1[0], float) - np.asarray(all1[1], float)).max()
-        if d == 0:
+        if d == 0 and sensitive:
             raise PropertyViolation(key + "/runs-identical", "individual runs with random parameters are identical to each other", case)
-        rec.mark_nontrivial(case, {"model": pretty(m), "spec": case["spec"], "entry": case["entry"], "iters": n})
+        if sensitive:
+            rec.mark_nontrivial(case, {"model": pretty(m), "spec": case["spec"], "entry": case["entry"], "iters": n})
+
+
+def _depends_on_random_params(m, su, spec, grid):
+    from pbt import refsolve
+    centre = {"gamma": lambda a, b: a, "norm": lambda a, b: a + 0.5, "unif": lambda a, b: a + 0.5 * b, "exp": lambda a, b: a}
+    theta = [sp["value"] if sp["form"] == "fixed" else centre[sp["family"]](sp["a"], sp["b"]) for sp in spec]
+    rnd = [i for i, sp in enumerate(spec) if sp["form"] != "fixed"]
+    try:
+        _X, Sens = refsolve.reference_sensitivities(m, theta, su["x0"], su["t0"], grid, rtol=1e-9, atol=1e-11)
+    except Inconclusive:
+        return False
+    return bool(np.abs(Sens[:, :, rnd]).max() > 1e-3)
